@@ -350,13 +350,37 @@ Lemma encode_vars I :
   flat_map (fun _ => [(0, total_duration I); (0, total_duration I)]) (all_keys I) ++ [(0, total_duration I)].
 Proof. reflexivity. Qed.
 
+(** [AddMaxEquality] is there only when there is an end time to take the
+    maximum of. *)
+Definition max_cstrs (I : instance) : list cstr :=
+  match all_keys I with
+  | [] => []
+  | _ :: _ => [CLinMax (mkvar I) (map (evar I) (all_keys I))]
+  end.
+
+Lemma nil_dec {A} (l : list A) : {l = []} + {l <> []}.
+Proof. destruct l as [|a t]; [left; reflexivity|right; discriminate]. Qed.
+
+Lemma all_keys_nil_iff I : all_keys I = [] <-> num_ops I = 0%nat.
+Proof. rewrite <- all_keys_length. split; [intros ->; reflexivity|apply length_zero_iff_nil]. Qed.
+
+Lemma max_cstrs_nil I : all_keys I = [] -> max_cstrs I = [].
+Proof. unfold max_cstrs. intros ->. reflexivity. Qed.
+
+Lemma max_cstrs_cons I : all_keys I <> [] ->
+  max_cstrs I = [CLinMax (mkvar I) (map (evar I) (all_keys I))].
+Proof. unfold max_cstrs. destruct (all_keys I) as [|k t]; [congruence|reflexivity]. Qed.
+
 Lemma encode_cstrs I :
   cp_cstrs (cp_encode I) =
-  ((lin_cstrs I ++ prec_cstrs I) ++ mach_cstrs I) ++ [CLinMax (mkvar I) (map (evar I) (all_keys I))].
+  ((lin_cstrs I ++ prec_cstrs I) ++ mach_cstrs I) ++ max_cstrs I.
 Proof.
+  assert (Hmk : length (flat_map (fun _ : nat * nat => [(0, total_duration I); (0, total_duration I)])
+                                 (all_keys I)) = mkvar I).
+  { unfold mkvar. rewrite length_flat2, all_keys_length. reflexivity. }
   unfold cp_encode, build, set_objective, add_machine_constraints, add_job_constraints,
-    create_variables, reset_model, fresh_state, lin_cstrs, mkvar. simpl.
-  rewrite length_flat2, all_keys_length. reflexivity.
+    create_variables, reset_model, fresh_state, lin_cstrs, max_cstrs. simpl.
+  f_equal. destruct (all_keys I) as [|k t]; [reflexivity|]. rewrite Hmk. reflexivity.
 Qed.
 
 Lemma encode_obj I : cp_obj (cp_encode I) = Some (mkvar I).
@@ -389,14 +413,23 @@ Record satd (I : instance) (sigma : assignment) : Prop := {
   sd_noov : forall m, (m < num_machines I)%nat ->
             ForallOrdPairs (disjoint sigma) (map (iv I) (keys_on I m));
   sd_max_le : forall k, In k (all_keys I) -> sigma (evar I k) <= sigma (mkvar I);
-  sd_max_ex : exists k, In k (all_keys I) /\ sigma (mkvar I) = sigma (evar I k)
+  sd_max_ex : all_keys I <> [] -> exists k, In k (all_keys I) /\ sigma (mkvar I) = sigma (evar I k)
 }.
 
 Lemma sat_cstrs_iff I sigma : Forall (sat_cstr sigma) (cp_cstrs (cp_encode I)) <-> satd I sigma.
 Proof.
   rewrite encode_cstrs, !Forall_app. split.
   - intros [[[Hlin Hprec] Hmach] Hmax]. rewrite Forall_forall in Hlin, Hprec, Hmach.
-    inversion Hmax as [|? ? Hm _]; subst. simpl in Hm. destruct Hm as [Hle Hex].
+    assert (Hm : (forall k, In k (all_keys I) -> sigma (evar I k) <= sigma (mkvar I)) /\
+                 (all_keys I <> [] -> exists k, In k (all_keys I) /\ sigma (mkvar I) = sigma (evar I k))).
+    { destruct (nil_dec (all_keys I)) as [Hnil|Hne].
+      - split; [intros k Hk; rewrite Hnil in Hk; destruct Hk|intros Hne; congruence].
+      - rewrite (max_cstrs_cons I Hne) in Hmax. inversion Hmax as [|? ? Hm _]; subst.
+        simpl in Hm. destruct Hm as [Hle Hex]. split.
+        + intros k Hk. apply Hle. apply in_map; exact Hk.
+        + intros _. destruct Hex as (e & He & Heq). apply in_map_iff in He.
+          destruct He as (k & <- & Hk). eauto. }
+    destruct Hm as [Hle Hex].
     constructor.
     + intros k Hk. specialize (Hlin _ (in_map _ _ _ Hk)). cbn [sat_cstr ev map sumZ fold_right fst snd] in Hlin. lia.
     + intros j p Hk.
@@ -408,8 +441,8 @@ Proof.
       { unfold mach_cstrs. apply in_flat_map. exists m. split; [apply in_seq; lia|].
         apply in_app_iff. right. left; reflexivity. }
       apply (Hmach _ Hin).
-    + intros k Hk. apply Hle. apply in_map; exact Hk.
-    + destruct Hex as (e & He & Heq). apply in_map_iff in He. destruct He as (k & <- & Hk). eauto.
+    + exact Hle.
+    + exact Hex.
   - intros [Hend Hprec Hnoov Hle Hex]. repeat split.
     + apply Forall_forall. intros c Hc. unfold lin_cstrs in Hc. apply in_map_iff in Hc.
       destruct Hc as (k & <- & Hk). cbn [sat_cstr ev map sumZ fold_right fst snd]. specialize (Hend k Hk). lia.
@@ -421,9 +454,10 @@ Proof.
       * apply in_map_iff in Hc. destruct Hc as (k & <- & Hk). simpl.
         apply keys_on_In in Hk. destruct Hk as [Hk _]. specialize (Hend k Hk). lia.
       * simpl. apply Hnoov. lia.
-    + constructor; [|constructor]. simpl. split.
+    + destruct (nil_dec (all_keys I)) as [Hnil|Hne]; [rewrite (max_cstrs_nil I Hnil); constructor|].
+      rewrite (max_cstrs_cons I Hne). constructor; [|constructor]. simpl. split.
       * intros e He. apply in_map_iff in He. destruct He as (k & <- & Hk). apply Hle; exact Hk.
-      * destruct Hex as (k & Hk & Heq). exists (evar I k). split; [apply in_map; exact Hk|exact Heq].
+      * destruct (Hex Hne) as (k & Hk & Heq). exists (evar I k). split; [apply in_map; exact Hk|exact Heq].
 Qed.
 
 (** Domains of the variables that belong to operations. *)
@@ -449,6 +483,18 @@ Qed.
 Lemma sat_domain_mk I sigma :
   in_domains sigma (cp_vars (cp_encode I)) -> 0 <= sigma (mkvar I) <= total_duration I.
 Proof. intros Hd. apply sat_domain; [exact Hd|unfold mkvar; lia]. Qed.
+
+(** An instance without operations: the horizon is 0, so the makespan
+    variable (which no constraint mentions) is 0. *)
+Lemma total_duration_no_ops I : all_keys I = [] -> total_duration I = 0.
+Proof. intros H. rewrite <- sumZ_durations, H. reflexivity. Qed.
+
+Lemma sat_mk_no_ops I sigma :
+  in_domains sigma (cp_vars (cp_encode I)) -> all_keys I = [] -> sigma (mkvar I) = 0.
+Proof.
+  intros Hd H. pose proof (sat_domain_mk I sigma Hd) as Hr.
+  rewrite (total_duration_no_ops I H) in Hr. lia.
+Qed.
 
 (** ** Insertion sort *)
 
